@@ -11,6 +11,14 @@ func (rt *runtime) cmplEvaluateNodeProgram(node *nodeProgram, eval bool) Value {
 	}
 	rt.cmplFunctionDeclaration(node.functionList)
 	rt.cmplVariableDeclaration(node.varList)
+	if eval {
+		// Eval code runs in the scope of its caller: give the caller's frame back its own file
+		// and call site afterwards.
+		frm := rt.scope.frame
+		defer func(scp *scope) {
+			scp.frame.file, scp.frame.offset = frm.file, frm.offset
+		}(rt.scope)
+	}
 	rt.scope.frame.file = node.file
 	return rt.cmplEvaluateNodeStatementList(node.body)
 }
